@@ -121,8 +121,11 @@ def nullableLoop (g : Grammar T N) (o : IterOrder T N) : Nat → Nat → List N 
     let r := nullablePass (groups g o i) (nul, false)
     if r.2 then nullableLoop g o fuel (i + 1) r.1 else .ok r.1
 
+/-- Passes the three loops are given: each pass that reports `updated` adds a member to a family of
+`|N|` sets over `|T|` terminals plus one flag each, so `|N|·(|T|+1) + 1` passes always suffice
+(`Proofs/C10Term.lean`); only reached for grammars that pass `Verify()`. -/
 def fixFuel (g : Grammar T N) : Nat :=
-  (g.nonterms.length + g.prods.length + 1) * (g.terms.length + 2) + 2
+  g.nonterms.length * (g.terms.length + 1) + 2
 
 def nullable (g : Grammar T N) (o : IterOrder T N) : Outcome (List N) :=
   nullableLoop g o (fixFuel g) 0 []
